@@ -433,10 +433,17 @@ class _ParseTreeProcessor(parsimonious.NodeVisitor):
         return _expression.Boolean(False)
 
     def visit_literal_string_single_quoted(self, node: _Node, _c: _Children) -> _expression.String:
-        return _parse_string_literal(node.text)
+        return self._visit_literal_string(node)
 
     def visit_literal_string_double_quoted(self, node: _Node, _c: _Children) -> _expression.String:
-        return _parse_string_literal(node.text)
+        return self._visit_literal_string(node)
+
+    def _visit_literal_string(self, node: _Node) -> _expression.String:
+        out = _parse_string_literal(node.text)
+        # The grammar permits unescaped line breaks inside string literals; they are not end_of_line nodes,
+        # so they have to be counted here to keep the line numbers of the following statements correct.
+        self._current_line_number += node.text.count("\n")
+        return out
 
 
 #
